@@ -54,7 +54,7 @@ def case(mod, servers, pre="-", locs=(), env="n", drop="-", tmo=3000):
     return " ".join([hx(df), ID, hx(cf), CI, pre, str(len(locs)), *locs, env, str(drop), str(tmo), str(len(servers)), *servers])
 
 
-def mcase(servers, sched, pre="-", tmo=3000, mod=0):
+def mcase(servers, sched, pre="-", tmo=8000, mod=0):
     """shared-cache history: len(servers) clients (client i <-> server i) sharing one cache and one tmp directory"""
     df, cf = MODS[mod]
     return " ".join(["kM", hx(df), ID, hx(cf), CI, pre, str(tmo), str(len(servers)), *servers, ",".join(sched) or "-"])
@@ -595,6 +595,17 @@ class C16(PropBase):
                     b = join(lines + [rec], final_nl=False)
                 fr = rng.choice(["L", "K4096,8192,100000", "L10000,50000,90000", "K1000", "E"])
                 add("lines_80_160k", case(0, [srv(framing=fr, body=b)]))
+        # around every size the parser's buffer can have (10/20/40/80/128/160 KiB) and inside the 128-160 KiB band:
+        # the download (parse_async) and the cache hit (parse of the file) must keep or discard the same lines;
+        # a long FUNC whose line records follow makes a one-sided discard a parse error
+        # (the record stands before the first FUNC: between a FUNC's line records it would make the file corrupt;
+        # lines of 10-60 KB are left to C10: the C09/C10 parser model needs minutes for them)
+        for ln in (66000, 82000, 131000, 140000, 150000, 160000, 163800):
+            rec = b"PUBLIC a000 0 " + b"z" * (ln - 14)
+            add("lines_80_160k", case(0, [srv(framing=rng.choice(["L", "K4096,8192,100000", "E"]), body=join(lines[:4] + [rec] + lines[4:]))]))
+        for ln in (100000, 131072, 150000):
+            frec = b"FUNC a000 20 0 " + b"f" * (ln - 15)
+            add("lines_80_160k", case(0, [srv(framing=rng.choice(["L", "K1000"]), body=join(lines[:4] + [frec, b"a000 10 7 0", b"a010 10 8 1"] + lines[4:]))]))
         # 200 KiB file, sampled cuts
         big_lines = sym_lines(df0, nfunc=2400, npub=1200)
         big = join(big_lines)
